@@ -110,6 +110,21 @@ func init() {
 				},
 			},
 			{
+				// a subscription that sat idle past its expiration TTL but was not swept
+				// yet is still attached: a publish in that window must reach it
+				ID: "C01/idle-past-ttl", Prop: "C01", Depth: d(tier, 5, 6), Drain: true,
+				Cfg: model.Cfg{Topics: []string{"T0"}, Subs: []model.SubCfg{
+					{Name: "S0", Topic: "T0", TTL: 2 * time.Minute, Retention: 10 * time.Minute},
+					{Name: "S1", Topic: "T0", TTL: time.Hour},
+				}},
+				Alphabet: []model.Op{
+					pub1("T0", "", 0),
+					pull("S0", 10), pull("S1", 10), ack("S0", "all"),
+					tick("ttl-"), tick("ttl+"), tick("lease+"),
+					job("delete-expired-subscriptions", 0, 100), mkSub("S0"),
+				},
+			},
+			{
 				ID: "C01/siblings+snapshot-seek", Prop: "C01", Depth: d(tier, 7, 9), Drain: true,
 				Cfg: model.Cfg{Topics: []string{"T0"}, Subs: []model.SubCfg{
 					{Name: "S0", Topic: "T0"},
@@ -329,6 +344,20 @@ func init() {
 				Alphabet: alpha(delTopic("TD"), mkTopic("TD"), delSub("SD"), mkSub("SD"), pull("SD", 10)),
 			},
 			&hist.Scenario{
+				// retention ends while the last attempt's lease has lapsed and before
+				// anything looked at the delivery: an expired message is not forwarded
+				ID: "C06/retention-ends-first", Prop: "C06", Depth: d(tier, 6, 7), Drain: true,
+				Cfg: model.Cfg{Topics: []string{"T0", "TD"}, Subs: []model.SubCfg{
+					{Name: "S0", Topic: "T0", DLTopic: "TD", MaxAttempts: 1, Retention: 40 * time.Second},
+					{Name: "SD", Topic: "TD"},
+				}},
+				Alphabet: []model.Op{
+					pub1("T0", "", 0),
+					pull("S0", 10), pull("SD", 10), nack("S0", "all"), ack("S0", "all"),
+					sweep(), tick("lease+"), tick("ret-"), tick("ret+"),
+				},
+			},
+			&hist.Scenario{
 				ID: "C06/chain+ordered-dl", Prop: "C06", Depth: d(tier, 7, 9), Drain: true,
 				Cfg: model.Cfg{Topics: []string{"T0", "TD", "TE"}, Subs: []model.SubCfg{
 					{Name: "S0", Topic: "T0", DLTopic: "TD", MaxAttempts: 1},
@@ -402,6 +431,24 @@ func init() {
 					job("delete-expired-subscriptions", time.Hour, 100), job("prune-expired-deliveries", 0, 100),
 					mkSub("S0"),
 					tick("ret-"), tick("ret+"), tick("ttl-"), tick("ttl+"), tick("lease+"),
+				},
+			},
+			{
+				// the durations are changed on the live subscription: what Get reports
+				// afterwards is what must be enforced (never expired before a full NEW TTL
+				// without activity; messages published afterwards live for the NEW retention)
+				ID: "C14/reconfigured", Prop: "C14", Depth: d(tier, 5, 6), Drain: true,
+				Cfg: model.Cfg{Topics: []string{"T0"}, Subs: []model.SubCfg{
+					{Name: "S0", Topic: "T0", Retention: 40 * time.Second, TTL: 2 * time.Minute},
+					{Name: "S1", Topic: "T0", Retention: 10 * time.Minute, TTL: time.Hour},
+				}},
+				Alphabet: []model.Op{
+					pub1("T0", "", 0),
+					pull("S0", 10), pull("S1", 10),
+					reconfig("S0", "ttl:1h"), reconfig("S0", "ttl:default"), reconfig("S1", "ttl:2min"),
+					reconfig("S0", "ret:10min"), reconfig("S1", "ret:40s"),
+					job("delete-expired-subscriptions", 0, 100),
+					tick("ret-"), tick("ret+"), tick("ttl-"), tick("ttl+"),
 				},
 			},
 			{
